@@ -22,6 +22,10 @@ class ContractBroken(Exception):
 
 
 # =============================================================================== M2 contracts
+def _contract_error():
+    return ContractBroken("contract condition returned False", {})
+
+
 class Contracts:
     """
     mode="raise": a refuting evaluation raises ContractBroken (C13 / C20 verdicts).
@@ -90,7 +94,7 @@ class Contracts:
                         return me._fail("lower bound depends on the sorted flag",
                                         {"objective": name, "sums": s, "remaining": R, "with_flag": float(result), "without_flag": float(other)})
                 return True
-            wrapped = icontract.ensure(lb_admissible, error=lambda: ContractBroken("lower_bound", {}))(orig)
+            wrapped = icontract.ensure(lb_admissible, error=_contract_error)(orig)
             me._saved.append((cls, "lower_bound", orig))
             cls.lower_bound = wrapped
 
@@ -121,7 +125,7 @@ class Contracts:
                                     {"objective": name, "k": kp, "sums": s, "got": float(result), "want": want,
                                      "sorted_flag": bool(are_sums_in_ascending_order)})
                 return True
-            wrapped = icontract.ensure(value_is_documented_quantity, error=lambda: ContractBroken("value_to_minimize", {}))(orig)
+            wrapped = icontract.ensure(value_is_documented_quantity, error=_contract_error)(orig)
             me._saved.append((cls, "value_to_minimize", orig))
             cls.value_to_minimize = wrapped
 
@@ -149,6 +153,8 @@ class Contracts:
                     me._fail("in/ex tree yielded something that is not a sub-collection of its items", {"sub": list(map(repr, sub))})
                 if tot > hi:
                     me._fail("in/ex tree yielded a sub-collection above its upper bound", {"total": float(tot), "upper": float(hi), "sub": list(map(repr, sub))})
+                if tot < lo:
+                    me._fail("in/ex tree yielded a sub-collection below its lower bound", {"total": float(tot), "lower": float(lo), "sub": list(map(repr, sub))})
                 if key is not None:
                     if key in seen:
                         me._fail("in/ex tree yielded the same sub-collection twice", {"sub": list(key)})
